@@ -105,10 +105,9 @@ class Check:
         for o in self.obligations:
             counts[o.clause] = counts.get(o.clause, 0) + 1
         undec = {o.clause for o in self.obligations if o.ok is None}
-        for cid, floor in self.floors.items():
-            if counts.get(cid, 0) < floor and cid not in undec:
-                raise AnalysisError(f'{cid}: only {counts.get(cid, 0)} rule instances, floor is {floor} '
-                                    f'(vacuous pass refused)')
+        failed_clauses = {o.clause for o in self.obligations if o.ok is False}
+        short = [(cid, floor) for cid, floor in self.floors.items()
+                 if counts.get(cid, 0) < floor and cid not in undec]
         known = load_known()
         known_keys = {k['key']: k for k in known.get('known', []) if k.get('property') == self.prop_id}
         failures = [o for o in self.obligations if o.ok is False]
@@ -138,6 +137,12 @@ class Check:
                           fh, indent=1)
             print(f'FINDING {o.clause} [{o.rule}] {o.construct} :: {o.role} @ {o.loc}\n    {o.detail}')
             print(f'VIOLATION property={self.prop_id} replay={rp}')
+        if short and not new:
+            # no violation to report and a clause matched fewer constructs than confirmed by hand:
+            # a vacuous pass is refused (exit 2).  With a violation in hand that is the answer (exit 1).
+            cid, floor = short[0]
+            raise AnalysisError(f'{cid}: only {counts.get(cid, 0)} rule instances, floor is {floor} '
+                                f'(vacuous pass refused)')
         self.write_evidence(len(new), listed)
         return 1 if new else 0
 
